@@ -24,6 +24,28 @@ def handleTwin (what : String) : Handler := fun _input impl =>
         tags }
   | _ => .malformed "twin"
 
+/-- C07: request `(root use what binding insideProgram outsideProgram)`,
+    implementation `(control inside outside outsideTwin before beforeTwin)` — lists of library-lint diagnostics in token space -/
+def handleGate : Handler := fun input impl =>
+  match input, impl with
+  | .list [root, use_, what, binding, _, _], .list [control, inside, outside, outsideTwin, before, beforeTwin] =>
+    let strs := fun (s : Sexp) => match s with | .list xs => some (xs.filterMap Sexp.asString?) | _ => none
+    match strs control, strs inside, strs outside, strs outsideTwin, strs before, strs beforeTwin with
+    | some c, some i, some o, some ot, some b, some bt =>
+      let r := root.asString?.getD ""
+      let u := use_.asString?.getD ""
+      let bn := binding.asString?.getD ""
+      let spec :=
+        if !i.isEmpty then some s!"[C07] inside: `{u}` inside the scope of a `{bn}` binding of `{r}` is linted as the library's: {i.take 2}"
+        else if o != ot then some s!"[C07] outside-after: `{u}` after the scope of a `{bn}` binding of `{r}` is linted differently from the twin whose binding has a fresh name: {o.take 2} vs {ot.take 2}"
+        else if b != bt then some s!"[C07] outside-before: `{u}` before a `{bn}` binding of `{r}` is linted differently from the twin whose binding has a fresh name: {b.take 2} vs {bt.take 2}"
+        else none
+      { agree := true, spec,
+        tags := [bn, what.asString?.getD ""] ++ (if c.isEmpty then ["control-silent"] else ["control-fires"]) ++
+                (c.filterMap fun s => (s.splitOn "|").head?).eraseDups }
+    | _, _, _, _, _, _ => { agree := false, spec := some "[C07] linting one of the gate programs panicked or did not parse", model := "" }
+  | _, _ => .malformed "gate"
+
 def handlers : List (String × Handler) :=
-  [("REL.c13", handleTwin "C13"), ("REL.c14", handleTwin "C14")]
+  [("REL.c13", handleTwin "C13"), ("REL.c14", handleTwin "C14"), ("C07.gate", handleGate)]
 end Driver.Rel
